@@ -115,7 +115,7 @@ def many_to_one(ns):
 
 def jobs(tier):
     q = tier == 'quick'
-    max_s, max_d = (4, 3) if q else (6, 4)
+    max_s, max_d = (4, 3) if q else (7, 4)
     out = []
     for ns in range(0, max_s + 1):
         for nd in range(1, max_d + 1):
